@@ -170,6 +170,20 @@ def check(recipe, mode):
             raise Violation('as_matrix', f'as_matrix() differs from the block-diagonal band matrix (n={n}, K={K}, batch {bshape}/{band_np.shape[:-1]})')
         if not np.array_equal(want, want.T):
             raise AssertionError('reference not symmetric')
+        # a second operator with the same structure, band layout and dtypes but OTHER band values: its own matrix and
+        # its own products (whatever was computed for the first one)
+        band2_np = -np.flip(band_np, axis=-1) + 1.0
+        op2 = T(jnp.asarray(band2_np, dtype=bdt), struct, method=(recipe.get('only') or METHODS)[recipe['seed'] % len(recipe.get('only') or METHODS)])
+        M2 = np.asarray(must_not_raise('as_matrix', op2.as_matrix), dtype=float)
+        bb2 = np.broadcast_to(band2_np, bshape + (K,))
+        want2 = ops._block_diag([ops.toeplitz_matrix(bb2[idx], n) for idx in np.ndindex(*bshape)] if bshape else [ops.toeplitz_matrix(band2_np, n)])
+        if M2.shape != want2.shape or not np.array_equal(M2, want2):
+            raise Violation('as_matrix:second-operator', f'as_matrix() of a second operator with the same layout and other band values is wrong (n={n}, K={K})')
+        y2 = np.asarray(must_not_raise('mv:second-operator', op2.mv, jnp.asarray(xs[0], dtype=dt)), dtype=float)
+        sband2 = float(np.abs(band2_np).sum(axis=-1).max())
+        tol2 = 8 * (math.log2(max(2, n + 2 * K + 64)) + 4) * eps * sband2 * float(np.abs(xs[0]).max(initial=0.0)) + 1e-30
+        if np.abs(y2 - ops.toeplitz_apply(band2_np, xs[0])).max(initial=0.0) > tol2:
+            raise Violation('value:second-operator', f'product of a second operator with the same layout and other band values is wrong (n={n}, K={K}, method {op2.method})')
     if K > n:
         classes.append('K>n')
     if K == 1:
